@@ -161,12 +161,30 @@ def run(case, rec):
             mod = pkg.mods[ns]
             defined = stub.defined() | BUILTIN_NAMES
             all_ns = {x['name'] for x in api['namespaces']}
+            direct_ns = set()
+            for d_ in n['defs']:
+                ts_ = []
+                if d_['k'] == 'alias':
+                    ts_.append(d_['type'])
+                elif d_['k'] in ('struct', 'union'):
+                    ts_ += [m_['type'] for m_ in d_.get('fields', d_.get('tags')) if m_['type'] is not None]
+                    if d_.get('parent'):
+                        direct_ns.add(d_['parent'][0])
+                elif d_['k'] == 'route':
+                    ts_ += [d_['arg'], d_['result'], d_['error']]
+                for t_ in ts_:
+                    for sub_ in M.walk_types(t_):
+                        if sub_[0] in ('ref', 'alias'):
+                            direct_ns.add(sub_[1])
 
             def name_kind(name):
                 if name in ('Optional', 'List', 'Dict', 'Text', 'datetime', 'Type', 'Callable', 'TypeVar'):
                     return name
                 if name in all_ns:
-                    return 'namespace-imported-by-the-spec' if name in n['imports'] else \
+                    # what matters is whether this namespace's own definitions mention the other namespace
+                    # (an `import` line alone makes stone import nothing): the known finding is the namespace
+                    # that is reached through inherited members only
+                    return 'namespace-imported-by-the-spec' if name in direct_ns else \
                         'namespace-reached-only-through-inherited-members'
                 return 'user-name'
             for dup in stub.dups:
